@@ -31,8 +31,12 @@ where
         let n = x.nrows();
         let mut classes = Vec::with_capacity(nclasses);
         let mut likelihood = Array2::zeros((nclasses, n));
-        joint_log_likelihood
-            .iter()
+        // visit the classes in label order, so that ties between equally likely classes are not
+        // broken by the iteration order of the hash map
+        let mut class_likelihoods = joint_log_likelihood.iter().collect::<Vec<_>>();
+        class_likelihoods.sort_unstable_by(|a, b| a.0.cmp(b.0));
+        class_likelihoods
+            .into_iter()
             .enumerate()
             .for_each(|(i, (&key, value))| {
                 classes.push(key.clone());
